@@ -7,13 +7,13 @@ WT=$(mktemp -d /tmp/confirm.XXXXXX)
 git -C /repo worktree add -q --detach "$WT/wt" HEAD || exit 2
 cd "$WT/wt"
 run_suite() { /venv/bin/python -m pytest -q -p no:cacheprovider --timeout=900 -rA 2>&1 | grep -E '^(PASSED|FAILED|ERROR)' | sed 's/ - .*//' | sort; }
-if [ ! -f /tmp/baseline_suite.txt ]; then run_suite > /tmp/baseline_suite.txt; fi
+if [ ! -f /tmp/baseline_suite_$(git -C /repo rev-parse --short HEAD).txt ]; then run_suite > /tmp/baseline_suite_$(git -C /repo rev-parse --short HEAD).txt; fi
 cp "$SRC/demo.py" ./_demo.py
 /venv/bin/python _demo.py > "$WT/demo_without.log" 2>&1; RC0=$?
 git apply "$SRC/patch.diff" || { echo "$NAME: patch does not apply"; cd /; git -C /repo worktree remove --force "$WT/wt"; rm -rf "$WT"; exit 2; }
 /venv/bin/python _demo.py > "$WT/demo_with.log" 2>&1; RC1=$?
 run_suite > "$WT/suite_with.txt"
-if diff -q /tmp/baseline_suite.txt "$WT/suite_with.txt" >/dev/null; then SUITE=same; else SUITE=DIFFERENT; fi
+if diff -q /tmp/baseline_suite_$(git -C /repo rev-parse --short HEAD).txt "$WT/suite_with.txt" >/dev/null; then SUITE=same; else SUITE=DIFFERENT; fi
 NP=$(grep -c '^PASSED' "$WT/suite_with.txt"); NF=$(grep -c '^FAILED' "$WT/suite_with.txt")
 echo "$NAME: demo_without_rc=$RC0 demo_with_rc=$RC1 suite=$SUITE passed=$NP failed=$NF"
 if [ "$RC0" = 0 ] && [ "$RC1" != 0 ] && [ "$SUITE" = same ]; then
